@@ -162,19 +162,7 @@ func runRoute(raw json.RawMessage) (interface{}, error) {
 			values[kv[1]] = struct{}{}
 		}
 	}
-	var rv, rm []interface{}
-	for _, r := range sortedKeys(ctxs.regexes) {
-		re, err := regexp.Compile(r)
-		rv = append(rv, P(r, err == nil))
-		if err == nil {
-			var row []interface{}
-			for _, v := range sortedKeys(values) {
-				row = append(row, P(v, re.MatchString(v)))
-			}
-			rm = append(rm, P(r, Lof(row)))
-		}
-	}
-	o.ReValid, o.ReMatch = Lof(rv), Lof(rm)
+	o.ReValid, o.ReMatch = regexTables(ctxs, values)
 	rep := c.Repeat
 	if rep < 1 {
 		rep = 1
@@ -204,4 +192,21 @@ func runRoute(raw json.RawMessage) (interface{}, error) {
 		o.Results = append(o.Results, rs)
 	}
 	return o, nil
+}
+
+// regexTables: validity of each regular expression met in the tables and its truth on each metadata value (Go regexp).
+func regexTables(ctxs *summCtx, values map[string]struct{}) (interface{}, interface{}) {
+	var rv, rm []interface{}
+	for _, r := range sortedKeys(ctxs.regexes) {
+		re, err := regexp.Compile(r)
+		rv = append(rv, P(r, err == nil))
+		if err == nil {
+			var row []interface{}
+			for _, v := range sortedKeys(values) {
+				row = append(row, P(v, re.MatchString(v)))
+			}
+			rm = append(rm, P(r, Lof(row)))
+		}
+	}
+	return Lof(rv), Lof(rm)
 }
